@@ -44,6 +44,8 @@ TOL = {
     'model_rel': 1e-7,        # Lean (exact rationals) vs implementation (floats)
     'comp': 1e-12,            # component vs surrogate
     'kriging_cond_max': 1e4,  # Kriging interpolation is demanded below this cond(R)
+    'rs_cond_max': 1e13,      # quadratic reproduction is demanded below this certified cond(design):
+                              # beyond, numpy's documented default cut-off eps*max(M,N) truncates
 }
 
 
@@ -111,6 +113,57 @@ def frac_det(M):
                 f = M[r][c] / M[c][c]
                 M[r] = [a - f * b for a, b in zip(M[r], M[c])]
     return det
+
+
+def frac_inverse(A):
+    """exact inverse of a square Fraction matrix (None when singular)."""
+    n = len(A)
+    M = [list(r) + [F(int(i == j)) for j in range(n)] for i, r in enumerate(A)]
+    for c in range(n):
+        piv = next((r for r in range(c, n) if M[r][c] != 0), None)
+        if piv is None:
+            return None
+        M[c], M[piv] = M[piv], M[c]
+        pv = M[c][c]
+        M[c] = [v / pv for v in M[c]]
+        for r in range(n):
+            if r != c and M[r][c] != 0:
+                f = M[r][c]
+                M[r] = [a - f * b for a, b in zip(M[r], M[c])]
+    return [r[n:] for r in M]
+
+
+def rs_drow(x, j):
+    """derivative of the design row with respect to x_j."""
+    n = len(x)
+    out = [F(0)] + [F(int(i == j)) for i in range(n)]
+    for i in range(n):
+        for k in range(i, n):
+            out.append((x[k] if i == j else F(0)) + (x[i] if k == j else F(0)))
+    return out
+
+
+def raw_beta(nin, c, b, A, off, scale):
+    """coefficients (design-row order) of c + b.u + sum_{i<=j} A[i][j] u_i u_j, u = (x - off) / scale."""
+    beta = [F(0)] * ((nin + 1) * (nin + 2) // 2)
+    pos = {}
+    k = nin + 1
+    for i in range(nin):
+        for j in range(i, nin):
+            pos[(i, j)] = k
+            k += 1
+    beta[0] += c
+    for i in range(nin):
+        beta[1 + i] += b[i] / scale[i]
+        beta[0] -= b[i] * off[i] / scale[i]
+    for i in range(nin):
+        for j in range(i, nin):
+            a = A[i][j] / (scale[i] * scale[j])
+            beta[pos[(i, j)]] += a
+            beta[1 + i] -= a * off[j]
+            beta[1 + j] -= a * off[i]
+            beta[0] += a * off[i] * off[j]
+    return beta
 
 
 def rs_row(x):
@@ -386,6 +439,40 @@ class C28(Property):
         self.rbf_sign_fixed = self._probe_rbf_sign()
         self._known_cache = {}
         self._plans = {}
+        self._phi0_cache = {}
+
+    def _phi0(self, fam, nin):
+        """value of the basis function at T = 0 for (family, input dimension), observed through
+        the public API: with two training points and num_neighbors=2 the training matrix is
+        phi(0) * I, so the weight of the point with normalised value 1 is 1 / phi(0)."""
+        key = (fam, nin)
+        if key not in self._phi0_cache:
+            import openmdao.api as om
+            try:
+                with warnings.catch_warnings():
+                    warnings.simplefilter('ignore')
+                    s = om.NearestNeighbor(interpolant_type='rbf', num_neighbors=2, rbf_family=fam)
+                    s.train(np.array([[0.] * nin, [1.] * nin]), np.array([[0.], [1.]]))
+                    w = float(np.asarray(s.interpolant.weights).ravel()[1])
+                self._phi0_cache[key] = abs(1.0 / w) if w != 0 and math.isfinite(w) else 1.0
+            except Exception:
+                self._phi0_cache[key] = 1.0
+        return self._phi0_cache[key]
+
+    def _rbf_noise(self, case, impl, wmax=None):
+        """rounding level of R.dot(weights) in raw output units, per output:
+        16 eps N (2 phi(0)) max|w| tvr — the backward error of a stable solve of the training
+        system, with the conditioning read from the size of the weights."""
+        spec = case['spec']
+        Y = mat_float(case['Y'])
+        N = spec['init'].get('num_neighbors', 5)
+        fam = spec['init'].get('rbf_family', 2)
+        tvr = np.where(Y.max(axis=0) > Y.min(axis=0), Y.max(axis=0) - Y.min(axis=0), 1.0)
+        if wmax is None:
+            if 'rbf_wmax' not in impl or not all(is_num(v) for v in impl['rbf_wmax']):
+                return np.zeros(Y.shape[1])
+            wmax = vec(impl['rbf_wmax'])
+        return 16 * 2.220446049250313e-16 * N * 2 * self._phi0(fam, len(case['X'][0])) * wmax * tvr
 
     def _probe_rbf_sign(self):
         """dims<=2, rbf_family=1: does _find_dR have the sign of the derivative?  Observed through
@@ -552,6 +639,67 @@ class C28(Property):
             case['beta'] = mat_rats(betas)
         return case
 
+    def _scaled_rs_case(self, rng):
+        """ResponseSurface on a full-rank but badly scaled design: inputs with a large offset
+        relative to their spread (calendar year, pressure in Pa, Kelvin) or of very different
+        magnitude (Mach number, 1e-5-sized lengths).  All coordinates, the generating quadratic
+        (dyadic coefficients in centred / scaled variables) and the training outputs are exactly
+        representable, so the certified normal equations of the Lean driver apply."""
+        UNITS = {
+            'year': lambda: (F(rng.choice([1990, 2000, 2000, 2010])), F(rng.choice([1, 1, 2])), (0, 20), F(16)),
+            'pascal': lambda: (F(rng.choice([100000, 101325, 90000])), F(rng.choice([256, 512])), (-20, 20), F(8192)),
+            'kelvin': lambda: (F(rng.choice([280, 300])), F(1, 2), (-40, 40), F(32)),
+            'mach': lambda: (F(0), F(1, 16), (2, 14), F(1)),
+            'pascal_wide': lambda: (F(100000), F(rng.choice([1024, 2048])), (-20, 20), F(32768)),
+            'micro': lambda: (F(0), F(1, 2 ** 20), (-30, 30), F(1, 2 ** 15)),
+        }
+        for _attempt in range(20):
+            nin = rng.choice([1, 1, 2, 2, 3])
+            names = [rng.choice(['year', 'year', 'pascal', 'pascal_wide', 'kelvin', 'mach', 'mach', 'micro'])
+                     for _ in range(nin)]
+            if all(n in ('mach', 'kelvin', 'micro') for n in names):
+                names[0] = rng.choice(['year', 'pascal', 'pascal_wide'])
+            units = [UNITS[n]() for n in names]
+            ncoef = (nin + 1) * (nin + 2) // 2
+            m = ncoef + rng.choice([0, 1, 2, 4, 8, 12])
+            pts = set()
+            tries = 0
+            while len(pts) < m and tries < 60 * m:
+                tries += 1
+                pts.add(tuple(o + st * rng.randint(lo, hi) for (o, st, (lo, hi), sc) in units))
+            X = [list(p_) for p_ in pts]
+            rng.shuffle(X)
+            if len(X) < ncoef or frac_rank([rs_row(x) for x in X]) < ncoef:
+                continue
+            sv = np.linalg.svd(np.array([[float(v) for v in rs_row(x)] for x in X]), compute_uv=False)
+            if not (1e9 <= sv[0] / max(sv[-1], 1e-300) <= 3e12) and _attempt < 18:
+                continue
+            nout = rng.choice([1, 1, 2])
+            off = [u[0] for u in units]
+            scale = [u[3] for u in units]
+            betas = []
+            for _ in range(nout):
+                c = F(rng.randint(-16, 16), 4)
+                b = [F(rng.randint(-8, 8), 4) for _ in range(nin)]
+                A = [[F(rng.randint(-8, 8), 4) for _ in range(nin)] for _ in range(nin)]
+                betas.append(raw_beta(nin, c, b, A, off, scale))
+            Y = [[quad_eval(bb, x) for bb in betas] for x in X]
+            if any(F(float(v)) != v for r in Y for v in r):
+                continue
+            qs = []
+            idxs = list(range(len(X)))
+            rng.shuffle(idxs)
+            for i in idxs[:2]:
+                qs.append({'kind': 'train', 'i': i, 'x': rats(X[i])})
+            for _ in range(3):
+                x = [o + st * (rng.randint(8 * lo, 8 * hi) * F(1, 8) + F(rng.randint(-3, 3), 64))
+                     for (o, st, (lo, hi), sc) in units]
+                qs.append({'kind': 'rand', 'x': rats(x)})
+            return {'kind': 'direct', 'spec': {'type': 'rs'}, 'style': 'scaled:' + '+'.join(names),
+                    'ykind': 'quad', 'X': mat_rats(X), 'Y': mat_rats(Y), 'queries': qs,
+                    'beta': mat_rats(betas)}
+        return self._direct_case(rng, 'rs')
+
     def _comp_case(self, rng):
         nvars = rng.choice([1, 2, 2, 3])
         sizes = [rng.choice([1, 1, 2]) for _ in range(nvars)]
@@ -607,6 +755,9 @@ class C28(Property):
 
     def cases(self, rng, tier):
         n_direct, n_comp = (200, 40) if tier == 'quick' else (5000, 700)
+        # badly scaled, full-rank ResponseSurface designs first
+        for _ in range(16 if tier == 'quick' else 300):
+            yield self._scaled_rs_case(rng)
         for k in range(n_direct + n_comp):
             if k % 6 == 5 and n_comp > 0:
                 n_comp -= 1
@@ -633,7 +784,7 @@ class C28(Property):
         hi = X.max(axis=0)
         rg = np.where(hi > lo, hi - lo, 1.0)
         if t == 'rs':
-            base = np.full(nin, 2.0 ** -6)
+            base = rg * 2.0 ** -4
         elif t == 'kriging':
             th = np.asarray(s.thetas, dtype=float)
             ell = 1.0 / np.sqrt(np.maximum(2.0 * th, 1e-12))
@@ -660,6 +811,12 @@ class C28(Property):
             return {'train_error': err_enum(e), 'msg': str(e)[:200]}
         if spec['type'] == 'rs':
             res['betas'] = fmat(np.asarray(s.betas).T)       # one list per output
+        if spec['type'] == 'nn_rbf':
+            try:
+                w = np.abs(np.asarray(s.interpolant.weights, dtype=float)).reshape(m, -1)
+                res['rbf_wmax'] = fvec(w.max(axis=0))
+            except Exception:
+                pass
         if spec['type'] == 'kriging':
             res['attrs'] = {'thetas': fvec(s.thetas), 'alpha': fmat(s.alpha), 'Xn': fmat(s.X),
                             'X_mean': fvec(s.X_mean), 'X_std': fvec(s.X_std),
@@ -846,6 +1003,19 @@ class C28(Property):
     # ------------------------------------------------------------------------------------------
     # direct oracle
 
+    @staticmethod
+    def _rs_bound(info, v, l, bnorm=None):
+        """Backward-error bound of a backward-stable least-squares solve for the value v.beta of
+        output l: 8 eps ||v^T X^+|| (||y|| + ||X|| ||beta||), with the exact leverage."""
+        G = info.get('rs_G')
+        if bnorm is None:
+            bnorm = info.get('rs_bnorm')
+        if G is None or bnorm is None:
+            return float('inf')
+        Gv = [sum(g * a for g, a in zip(row, v)) for row in G]
+        lev = math.sqrt(max(0.0, float(sum(a * b for a, b in zip(v, Gv)))))
+        return 8 * 2.220446049250313e-16 * lev * (info['rs_ynorm'][l] + info['rs_normX'] * bnorm[l])
+
     def _failures_direct(self, case, impl):
         """all violated clauses of a direct case, as failure dicts."""
         fails = []
@@ -879,6 +1049,7 @@ class C28(Property):
         xrg = np.where(Xf.max(axis=0) > Xf.min(axis=0), Xf.max(axis=0) - Xf.min(axis=0), 1.0)
         info = self._analyse(case, impl)
         kw = call_kwargs(spec)
+        rbf_noise = self._rbf_noise(case, impl) if t == 'nn_rbf' else None
 
         def add(clause, detail, what, **extra):
             d = {'what': what, 'surrogate': t, 'clause': clause, 'detail': detail}
@@ -908,7 +1079,7 @@ class C28(Property):
                 err = np.abs(pred - yi) / ysc
                 if t == 'rs':
                     # exact data (quadratic / linear): the least-squares residual is zero
-                    if 'beta' in case:
+                    if 'beta' in case and info['rs_rank'] == 'deficient':
                         tol = TOL['quadratic'] * max(1.0, info['rs_cond'] / 1e6)
                         if info['rs_cond'] < 1e11 and err.max() > tol:
                             add('quadratic', 'at_train_' + info['rs_rank'],
@@ -925,27 +1096,40 @@ class C28(Property):
                     detail = qa.get('neigh_class', 'regular')
                     if t == 'nn_linear' and detail == 'regular' and qa.get('kappa', 1.0) > 1e6:
                         tol = None
-                    if tol is not None and err.max() > tol:
+                    if t == 'nn_rbf':
+                        # conditioning of the training system, read from the size of the weights
+                        tol = np.maximum(tol, rbf_noise / ysc)
+                    if tol is not None and (err > tol).any():
                         add('interp_at_train', detail,
                             '%s misses training output %d: predicted %s, expected %s' %
                             (t, q['i'], pred.tolist(), yi.tolist()), query=qi)
             # ---- exact quadratic everywhere (full column rank) ---------------------------------
-            if t == 'rs' and 'beta' in case and info['rs_rank'] == 'full' and info['rs_cond'] < 1e11:
+            if t == 'rs' and 'beta' in case and info['rs_rank'] == 'full' and \
+                    info['rs_cond_cert'] <= TOL['rs_cond_max']:
+                # tolerance: 1e-8 relative + the certified backward-error bound of the solve
                 betas = mat_unrat(case['beta'])
                 exact = np.array([float(quad_eval(b, x)) for b in betas])
                 sc = np.maximum(ysc, np.abs(exact))
-                tol = TOL['quadratic'] * max(1.0, info['rs_cond'] / 1e6)
-                if (np.abs(pred - exact) / sc).max() > tol:
-                    add('quadratic', 'full_rank', 'quadratic not reproduced at %s: %s vs exact %s'
-                        % (q['x'], pred.tolist(), exact.tolist()), query=qi)
+                row = rs_row(x)
+                tolp = np.array([TOL['quadratic'] * sc[l] + self._rs_bound(info, row, l)
+                                 for l in range(nout)])
+                qa['rs_noise'] = np.array([self._rs_bound(info, row, l) for l in range(nout)])
+                if (np.abs(pred - exact) > tolp).any():
+                    add('quadratic', 'full_rank' if q['kind'] != 'train' else 'at_train_full',
+                        'quadratic not reproduced at %s: %s vs exact %s (tolerance %s, cond %.3g)'
+                        % (q['x'], pred.tolist(), exact.tolist(), tolp.tolist(), info['rs_cond']),
+                        query=qi)
                 if 'jac' in o:
                     J = arr(o['jac'])
                     G = np.array([[float(g) for g in quad_grad(b, x)] for b in betas])
                     gs = np.maximum(np.abs(G), (ysc[:, None] / xrg[None, :]))
-                    if not np.all(np.isfinite(J)) or (np.abs(J - G) / gs).max() > 10 * tol:
+                    tolj = np.array([[10 * TOL['quadratic'] * gs[l, j]
+                                      + self._rs_bound(info, rs_drow(x, j), l)
+                                      for j in range(nin)] for l in range(nout)])
+                    if not np.all(np.isfinite(J)) or (np.abs(J - G) > tolj).any():
                         add('linearize', 'vs_exact_gradient',
-                            'linearize %s differs from the gradient of the quadratic %s'
-                            % (J.tolist(), G.tolist()), query=qi)
+                            'linearize %s differs from the gradient of the quadratic %s (tolerance %s)'
+                            % (J.tolist(), G.tolist(), tolj.tolist()), query=qi)
             # ---- linearize vs finite differences -----------------------------------------------
             if 'jac_error' in o:
                 add('linearize', qa.get('jac_err_detail', 'raises'),
@@ -966,6 +1150,10 @@ class C28(Property):
                     if not np.all(np.isfinite(Jfd)):
                         continue
                     exc = np.abs(J - Jfd) - (TOL['fd_abs'] * S + TOL['fd_rel'] * np.abs(Jfd))
+                    # rounding level of predict on the stencil (certified conditioning)
+                    noise = rbf_noise if t == 'nn_rbf' else qa.get('rs_noise')
+                    if noise is not None:
+                        exc = exc - 4.0 * np.asarray(noise)[:, None] / vec(fdv['h'])[None, :]
                     worst = exc.max()
                     if best is None or worst < best[0]:
                         best = (worst, Jfd)
@@ -1014,6 +1202,19 @@ class C28(Property):
             sv = np.linalg.svd(Df, compute_uv=False)
             pos = sv[sv > sv[0] * 1e-13] if len(sv) else sv
             info['rs_cond'] = float(sv[0] / pos[-1]) if len(pos) else 1.0
+            if rk == ncoef:
+                # exact (X^T X)^-1: leverage ||v^T X^+|| = sqrt(v^T (X^T X)^-1 v) of any row v
+                N = [[sum(r[a] * r[b] for r in D) for b in range(ncoef)] for a in range(ncoef)]
+                info['rs_G'] = frac_inverse(N)
+                info['rs_normX'] = float(sv[0])
+                # certified upper bound of cond(X): cond^2 <= ||X^T X||_F ||(X^T X)^-1||_F (exact)
+                fro = lambda M_: sum(v * v for r in M_ for v in r)
+                info['rs_cond_cert'] = float(fro(N) * fro(info['rs_G'])) ** 0.25
+                Yq = mat_unrat(case['Y'])
+                info['rs_ynorm'] = [math.sqrt(sum(float(r[l]) ** 2 for r in Yq)) for l in range(len(Yq[0]))]
+                if 'beta' in case:
+                    info['rs_bnorm'] = [math.sqrt(sum(float(v) ** 2 for v in b))
+                                        for b in mat_unrat(case['beta'])]
         if t == 'kriging' and 'attrs' in impl:
             try:
                 th, Xn = vec(impl['attrs']['thetas']), arr(impl['attrs']['Xn'])
@@ -1243,7 +1444,10 @@ class C28(Property):
             info = self._analyse(case, impl)
             if t == 'rs':
                 b.append('rs_rank=' + info['rs_rank'])
-                b.append('rs_cond=%s' % ('<1e6' if info['rs_cond'] < 1e6 else '>=1e6'))
+                c_ = info['rs_cond']
+                c_ = info.get('rs_cond_cert', c_)
+                b.append('rs_cond=%s' % ('<1e6' if c_ < 1e6 else '1e6-1e10' if c_ < 1e10 else
+                                         '1e10-1e13' if c_ <= 1e13 else '>1e13(no claim)'))
             if t == 'kriging' and 'krig_cond_bucket' in info:
                 b.append('krig_cond=' + info['krig_cond_bucket'])
             for q, o, qa in zip(case['queries'], impl['queries'], info['q']):
@@ -1474,19 +1678,28 @@ class C28(Property):
                     continue
                 if info['rs_rank'] != 'full':
                     return 'Lean solved the normal equations uniquely although the design is rank deficient'
-                if info['rs_cond'] > 1e6:
+                if info['rs_cond_cert'] > TOL['rs_cond_max']:
                     continue
-                tol = 1e-9 * max(1.0, info['rs_cond'])
+                # tolerance: 1e-9 relative + the certified backward-error bound of the solve, with
+                # the exact least-squares coefficients the driver returned
+                bnorm = [math.sqrt(sum(float(unrat(v)) ** 2 for v in b)) for b in a['beta']]
+                nout_ = len(bnorm)
                 for qi, o in enumerate(impl['queries']):
                     if 'pred' not in o:
                         continue
+                    xq = [unrat(v) for v in case['queries'][qi]['x']]
                     pm = U(a['pred'][qi])
-                    if not close(vec(o['pred']), pm, np.maximum(ysc, np.abs(pm)), tol):
+                    bp = np.array([self._rs_bound(info, rs_row(xq), l, bnorm) for l in range(nout_)])
+                    if (np.abs(vec(o['pred']) - pm) > 1e-9 * np.maximum(ysc, np.abs(pm)) + bp).any():
                         return 'rs predict: exact least squares %s vs implementation %s' % (
                             pm.tolist(), o['pred'])
-                    if 'jac' in o and not close(arr(o['jac']), UM(a['jac'][qi]), S, tol):
-                        return 'rs linearize: exact least squares %s vs implementation %s' % (
-                            a['jac'][qi], o['jac'])
+                    if 'jac' in o:
+                        Jm = UM(a['jac'][qi])
+                        bj = np.array([[self._rs_bound(info, rs_drow(xq, j), l, bnorm)
+                                        for j in range(len(xq))] for l in range(nout_)])
+                        if (np.abs(arr(o['jac']) - Jm) > 1e-9 * np.maximum(S, np.abs(Jm)) + bj).any():
+                            return 'rs linearize: exact least squares %s vs implementation %s' % (
+                                a['jac'][qi], o['jac'])
                 if 'beta' in case:
                     if [[unrat(v) for v in r] for r in a['beta']] != mat_unrat(case['beta']):
                         return 'exact least squares on exact quadratic data did not return the coefficients'
@@ -1557,11 +1770,15 @@ class C28(Property):
                     if 'pred' not in o:
                         continue
                     am = a['q'][k]
-                    if not close(vec(o['pred']), U(am['pred']), ysc, 1e-6):
+                    # conditioning of the (exactly solved) training system: size of the weights
+                    noise = self._rbf_noise(case, impl, wmax=U(a['wmax']))
+                    pm = U(am['pred'])
+                    if (np.abs(vec(o['pred']) - pm) > 1e-6 * np.maximum(ysc, np.abs(pm)) + noise).any():
                         return 'rbf predict: model %s vs implementation %s' % (am['pred'], o['pred'])
                     if 'jac' in o and not qa['tie'] and case['queries'][qi]['kind'] != 'train':
                         Jm = UM(am['jac'])
-                        if not close(arr(o['jac']), Jm, np.maximum(S, np.abs(Jm).max()), 1e-5):
+                        tolj = 1e-5 * np.maximum(S, np.abs(Jm).max()) + 500 * noise[:, None] / xrg[None, :]
+                        if (np.abs(arr(o['jac']) - Jm) > tolj).any():
                             return 'rbf linearize: model %s vs implementation %s' % (am['jac'], o['jac'])
         return None
 
